@@ -19,7 +19,7 @@ PROP = dict(
                            "text:linear": 10000, "text:factor": 10000, "text:range": 10000, "text:values": 10000, "text:mutated": 10000,
                            "direct:boundary": 5000, "direct:linear": 5000, "direct:profile": 10000, "direct:string": 5000, "direct:buffer": 5000,
                            "direct:from-iterator": 5000, "mpt_values_linear": 3000, "mpt_values_bound": 3000}),
-              dict(name="c19_cxx", src=["c19_cxx.cpp"], libs=["mpt++", "mptio", "mptplot", "mptcore"], batch=512, lsan=True,
+              dict(name="c19_cxx", memcheck=500, src=["c19_cxx.cpp"], libs=["mpt++", "mptio", "mptplot", "mptcore"], batch=512, lsan=True,
                    cflags=["-fno-sanitize=vptr"],
                    floors={"source<T>": 100000, "source:backward": 40000, "source:forward": 40000, "c-iterator": 15000,
                            "iterator::value": 1000000, "iterator::advance": 1000000, "iterator::reset": 200000, "iterator::get": 500000,
